@@ -1033,5 +1033,6 @@ func main() {
 		"nonces/ephemeral keys of the values protected during the parallel phase come from one shared deterministic stream, so ciphertext bytes differ between runs; the oracle depends only on plaintexts, lengths and structure",
 		"owner identity alpha_1 with one key rotation; the other client is bravo_2",
 		"a second envelope in the surrounding bytes is of the same framing family as the stored value (raw next to raw, container next to container)")
+	phaseKeyIDCollision(r)
 	finish()
 }
